@@ -9,6 +9,20 @@ from . import core
 def regenerate(hdir):
     dumper = os.path.join(hdir, "dumper")
     if not os.path.exists(dumper):
+        err = os.path.join(hdir, "dumper.err")
+        if os.path.exists(err):
+            # the constants program does not compile against the current headers: no constants can be reflected; a stub (no
+            # definitions) replaces Generated.lean, so that every obligation about the constants breaks instead of being checked
+            # against the constants of an earlier tree
+            msg = open(err).read()
+            text = ("/- STUB: harness/dumper.cpp does not compile against the current headers, the constants could not be regenerated.\n"
+                    + msg[:1500].replace("-/", "- /") + "\n-/\nnamespace AsamCmp.Generated\nend AsamCmp.Generated\n")
+            p = os.path.join(core.LEAN, "AsamCmp", "Generated.lean")
+            if not os.path.exists(p) or open(p).read() != text:
+                with core.Lock("lake"):
+                    with open(p, "w") as f:
+                        f.write(text)
+            return "Generated.lean: STUB (the constants program does not compile: " + msg.strip().split("\n")[-1][:200] + "); " + regenerate_src()
         return "no dumper built"
     r = subprocess.run([dumper], stdout=subprocess.PIPE, stderr=subprocess.PIPE, env=dict(os.environ, **core.SAN_ENV))
     if r.returncode != 0:
